@@ -700,7 +700,7 @@ type tierCfg struct {
 func tierOf(tier string) tierCfg {
 	if tier == "thorough" {
 		return tierCfg{
-			families: []family{{"GluonDB.mailbox.thorough.cfg", 3}, {"GluonDB.message.thorough.cfg", 2}, {"GluonDB.membership.thorough.cfg", 2},
+			families: []family{{"GluonDB.mailbox.quick.cfg", 2}, {"GluonDB.mailbox.thorough.cfg", 2}, {"GluonDB.message.thorough.cfg", 2}, {"GluonDB.membership.thorough.cfg", 3},
 				{"GluonDB.twobox.thorough.cfg", 2}, {"GluonDB.threemsg.thorough.cfg", 2}, {"GluonDB.tx.thorough.cfg", 2}},
 			famTimeout: 15 * time.Minute, generators: 4, perGen: 1500, workers: 8, budget: 14 * time.Minute, extra: 800}
 	}
@@ -803,7 +803,7 @@ func run(r *ev.Run, tier, replay string) {
 		batch(rounds, tc.extra, true)
 	}
 	witnesses := 0
-	if tier == "thorough" || time.Since(start) < tc.budget {
+	if tier == "thorough" || time.Since(start) < 40*time.Second {
 		miss := missingNow()
 		sem := make(chan struct{}, 3)
 		var dwg sync.WaitGroup
@@ -815,7 +815,7 @@ func run(r *ev.Run, tier, replay string) {
 				defer dwg.Done()
 				sem <- struct{}{}
 				defer func() { <-sem }()
-				dt := 90 * time.Second
+				dt := 40 * time.Second
 				if tier == "thorough" {
 					dt = 8 * time.Minute
 				}
